@@ -158,4 +158,17 @@ Section View.
                      (f_instrs f)
     | SZero => None
     end.
+
+  (* the domain of the restricted table theorems (Spec/C06Cfi.cie_domain / fde_domain), per entry *)
+  Definition entry_domain (off : Z) (e : sentry) : bool :=
+    match e with
+    | SCie c => cie_domain (lv (c_caf c)) (lv (c_daf c)) (c_instrs c)
+    | SFde f =>
+        let c := cie_at es (f_cie f) in
+        fde_domain (lv (c_caf c)) (lv (c_daf c)) (c_instrs c)
+                   (ptr_meaning (fde_pcrel eh c) (s_addr s) (loc_field_off off f)
+                                (lv (f_loc f)))
+                   (f_instrs f)
+    | SZero => true
+    end.
 End View.
